@@ -142,6 +142,16 @@ func VerifC12RotateNoClobber() {
 	verifObserve("ok", err == nil)
 	j := f.storage.find(path)
 	verifAssert(j >= 0 && verifSameSlice(f.storage.objects[j].data, before), "a rotation without overwrite permission leaves the existing certificate object unchanged")
+	// and whatever the rotation did (refuse, or carry on under --keep_going), the recorded primary
+	// still has a certificate issued for that very key: an existing object is never taken over as the
+	// certificate of another key
+	if keepGoing {
+		// recorded as a known finding: with --keep_going the write is skipped and the rotation carries
+		// on, so the new primary ends up with the old key's certificate
+		f.verifHealthy(f.newCA(), "after a colliding rotation under --keep_going")
+	} else {
+		f.verifHealthy(f.newCA(), "after a colliding rotation that is refused")
+	}
 	verifReach("end")
 }
 
